@@ -34,6 +34,36 @@ def rp(meth, trait=CACHE):
     return "<%s as %s>::%s" % (RP, trait, meth)
 
 
+def impl_or_default(f, self_ty, meth, trait=CACHE):
+    """(body, dyn_impl): the impl's own method, or — when the impl does not override it — the trait's default body together
+    with the map that resolves the default body's calls on Self to this impl's methods"""
+    own = "<%s as %s>::%s" % (self_ty, trait, meth)
+    if own in f.bodies:
+        return f.bodies[own], {}
+    dflt = f.bodies.get(trait + "::" + meth)
+    if dflt is None:
+        return f.one(own), {}  # raises AnchorMissing
+    dyn = {}
+    for tr in (CACHE, IMPLD):
+        for b in f.bodies.values():
+            if b.impl_self == self_ty and b.impl_trait == tr and b.name:
+                dyn[tr + "::" + b.name] = b.path
+    return dflt, dyn
+
+
+def bool_fact(p, term):
+    """True / False / None: what the path assumed about a boolean term it branched on"""
+    out = None
+    for c, truth, _s, _at in p.state.pc:
+        if c == term and isinstance(truth, bool):
+            out = truth
+        elif isinstance(c, tuple) and c and c[0] == "cmp" and c[1] in ("Eq", "Ne") and c[2] == term and c[3] in (0, 1) and truth is True:
+            out = (c[3] == 1) if c[1] == "Eq" else (c[3] == 0)
+        elif isinstance(c, tuple) and c and c[0] == "notin" and c[1] == term and truth is True and set(c[2]) in ({0}, {1}):
+            out = set(c[2]) == {0}
+    return out
+
+
 def P(name):
     return ("param", name)
 
